@@ -20,7 +20,8 @@ const uint8_t PROFILES[][NOPS] = {
     {6, 2, 0, 1, 0, 1, 2, 0, 0}, /* C16: allocation heavy */ {8, 3, 1, 2, 1, 2, 0, 0, 1},
 };
 const int NPROFILES = 6;
-const int KEYS[] = {1, 2, 3, 4, 8, 16, 64, 1000};
+const int KEYS[] = {1, 2, 3, 4, 8, 16, 64, 1000, 60000};
+const int NKEYS = 9;
 const size_t MAXLIVE[] = {1000000, 2, 3, 4, 6, 8, 10, 12};
 
 int g_priv_token, g_cmp_kind, g_mod;
@@ -40,7 +41,7 @@ struct Map {
     const char *tag;
     cstl_map_t m;
     std::map<int, Entry> model;      // class -> stored pointers
-    std::vector<void *> cells;       // harness-owned cells still alive
+    std::unordered_set<void *> cells;   // harness-owned cells still alive
     int next_id;
     void init(const char *t)
     {
@@ -49,16 +50,15 @@ struct Map {
         next_id = 0;
         LIB(cstl_map_init(&m, cmp_cb, &g_priv_token));
     }
-    KeyCell *mkkey(int v) { KeyCell *k = (KeyCell *)malloc(sizeof *k); k->value = v; k->id = next_id++; cells.push_back(k); return k; }
-    ValCell *mkval() { ValCell *v = (ValCell *)malloc(sizeof *v); v->id = next_id++; v->tag = 0x11223344; cells.push_back(v); return v; }
+    KeyCell *mkkey(int v) { KeyCell *k = (KeyCell *)malloc(sizeof *k); k->value = v; k->id = next_id++; cells.insert(k); return k; }
+    ValCell *mkval() { ValCell *v = (ValCell *)malloc(sizeof *v); v->id = next_id++; v->tag = 0x11223344; cells.insert(v); return v; }
     void freecell(void *c, size_t sz)
     {
-        auto it = std::find(cells.begin(), cells.end(), c);
-        if (it != cells.end()) { *it = cells.back(); cells.pop_back(); }
+        cells.erase(c);
         memset(c, 0xDD, sz);
         free(c);
     }
-    void destroy() { for (void *c : cells) free(c); cells.clear(); }
+    void destroy() { for (void *c : cells) free(c); fresh_clear(cells); }
 };
 
 void clear_cb(void *obj, void *priv)
@@ -97,8 +97,9 @@ void audit(Map &mp, int K, Obs *obs)
     LIB(sz = cstl_map_size(&mp.m));
     if (obs) obs->push_back((long)sz);
     CHECK(sz == mp.model.size(), "C08.size", "%s size %zu, reference %zu", mp.tag, sz, mp.model.size());
-    int lim = K <= 64 ? K : 0;
-    for (int v = 0; v < lim; v++) {
+    int lim = K <= 64 ? K : 64;        // large universes: a spread sample of keys
+    for (int i = 0; i < lim; i++) {
+        int v = K <= 64 ? i : (int)(((long)i * 9973 + 17) % K);
         KeyCell probe{v, -1};
         cstl_map_iterator_t it;
         LIB(cstl_map_find(&mp.m, &probe, &it));
@@ -123,7 +124,7 @@ void peek_rec(Map &mp, struct cstl_bintree_node *b, std::string &s, size_t &budg
     if (!budget) { ok = false; return; }
     budget--;
     NodeReplica *nr = (NodeReplica *)((char *)b - offsetof(NodeReplica, n.n));
-    bool mine = std::find(mp.cells.begin(), mp.cells.end(), (void *)nr->key) != mp.cells.end();
+    bool mine = mp.cells.count((void *)nr->key) != 0;
     if (!mine) { ok = false; return; }
     s += '(';
     s += std::to_string(key_class(((const KeyCell *)nr->key)->value));
@@ -297,7 +298,7 @@ void vf_run(const uint8_t *data, size_t len)
     M.destroy();
     MW.destroy();
     Cursor cur(data, len);
-    int K = KEYS[cur.u8() % 8];
+    int K = KEYS[cur.u8() % NKEYS];
     g_cmp_kind = cur.u8() % 3;
     g_mod = 2 + cur.u8() % 5;
     size_t maxlive = MAXLIVE[cur.u8() % 8];
@@ -322,7 +323,7 @@ void vf_run(const uint8_t *data, size_t len)
         Obs oa, ob;
         uint64_t fh = g_faults_hit;
         if (c16 && g_faults_hit && g_also_ours.empty()) g_also_ours = {"C08"};
-        bool do_audit = g_want_state ? my >= last_idx : (total <= 24 || (my % 8) == 7);
+        bool do_audit = g_want_state ? my >= last_idx : total > 5000 ? (my % 4096) == 4095 : (total <= 24 || (my % 8) == 7);
         bool first_clear = c15 && op == CLEAR_CB && !twin;
         if (!twin && !first_clear) {
             apply(M, cx, op, a, b, K, maxlive, nullptr);
@@ -372,6 +373,7 @@ void vf_gen(Rng &r, std::vector<uint8_t> &out)
     out.push_back(r.chance(5, 6) ? 0 : r.byte());
     out.push_back(c16 ? 5 : c15 ? (r.chance(2, 3) ? 4 : r.byte()) : r.byte());
     size_t n = c16 ? 6 + r.below(10) : r.chance(3, 5) ? 1 + r.below(24) : r.chance(7, 8) ? 1 + r.below(200) : 1 + r.below(1000);
+    if (!c15 && !c16 && r.chance(1, 30000)) { n = 60000 + r.below(60000); out[0] = 8; out[3] = 0; out[4] = 1; }   // scale run: tens of thousands of entries
     for (size_t i = 0; i < n; i++) { out.push_back(r.byte() % 251); out.push_back(r.byte()); out.push_back(r.byte()); }
 }
 
@@ -383,7 +385,7 @@ bool vf_scope(const std::string &name, Scope &s)
     sscanf(name.c_str(), "%d:%d:%d:%31s", &ki, &cmp, &mi, mode);
     bool c15 = g_prop == "C15";
     s.header = {(uint8_t)ki, (uint8_t)cmp, 0, (uint8_t)mi, 0};
-    int K = KEYS[ki % 8];
+    int K = KEYS[ki % NKEYS];
     std::vector<int> ops = {INSERT, FIND, ERASE, ERASE_IT};
     if (!c15 && strncmp(mode, "seq", 3) == 0) { ops.push_back(INSERT_NOIT); ops.push_back(ERASE_NOIT); }
     for (int op : ops) {
